@@ -213,7 +213,7 @@ fn pane_session(ctx: &Ctx, texts: &[String], tag: &str, rep: &mut Report) -> Opt
 }
 
 pub fn run(ctx: &Ctx) -> Report {
-    let n = ctx.size(400_000, 8_000_000) as usize;
+    let n = ctx.size(800_000, 8_000_000) as usize;
     let batches = (n + 199) / 200;
     let pane_every = (batches / (ctx.size(24, 500) as usize).max(1)).max(1);
     par_items(ctx.threads, batches, ctx.seed, move |i, seed, rep| {
